@@ -23,6 +23,7 @@ ENCODED = [
     "tdgl.device.device:Device.Bc2",
     "tdgl.device.device:Device.A0",
     "tdgl.device.device:Device.K0",
+    "tdgl.device.device:Device.copy",
     "tdgl.sources.constant:constant_field_vector_potential",
     "tdgl.em:uniform_Bz_vector_potential",
 ]
@@ -117,6 +118,12 @@ def body(H, case):
         solver = S.make_solver(H, dev, opts, A=B_mT * FLD[fu], currents=currents, validate=False)
         solver.update_mu_boundary(0.0)
         K0 = dev.K0.to("uA / um").magnitude  # physical current-density scale in fixed units
+        # a copy of the device (what a Solution stores, what scale / rotate / translate start from) is the
+        # same physical device: same length unit, same physical scales
+        cp = dev.copy()
+        H.prove(f"{lu}/{fu}/{cu}: a copy of the device keeps its length unit", cp.length_units == dev.length_units)
+        close(H, f"{lu}/{fu}/{cu}: a copy of the device has the same K0", cp.K0.to("uA / um").magnitude, K0)
+        close(H, f"{lu}/{fu}/{cu}: a copy of the device has the same Bc2", cp.Bc2.to("mT").magnitude, dev.Bc2.to("mT").magnitude)
         # the screening weights carry one power of the length unit (they are divided by distances
         # in the same unit inside the kernel): compare them in units of xi
         w = None if solver.areas is None else solver.areas / (XI_UM * LEN[lu])
